@@ -121,6 +121,10 @@ def run(ck):
     from props import C06, C07, C05
 
     common.import_results(ck, C06, "2", "dispatch_events", "2")
+    # no dispatcher reference is released (possibly the last one: the user's Drop runs) under a loop borrow (C06.4)
+    common.import_results(ck, C06, "4", None, "3")
+    common.import_results(ck, C01, "4", None, "3")
+    common.import_results(ck, C06, "1", "LoopHandle::remove", "2")
     common.import_results(ck, C07, "2", None, "2")
     common.import_results(ck, C05, "5", "Timer", "2")
     common.import_results(ck, C05, "6", "Timer", "2")
